@@ -26,7 +26,9 @@ RULE = (
     "generated forms with 0-3 languages and sparse translation patterns (label/hint/guidance_hint/constraint and "
     "required messages/media per language or unsuffixed, on questions, groups, repeats; choice lists plain / "
     "translated / with media / with ${ref} labels / unlabeled choices, shared by several selects, search() selects, "
-    "unused lists; default_language by setting and/or argument) plus directed families (F6 shapes, names containing "
+    "unused lists, randomized selects; bind messages incl. jr:noAppErrorString plain / with ${ref} / translated; language "
+    "names differing only by letter case; default_language by setting and/or argument, also a case variant of a "
+    "language) plus directed families (F6 shapes, names containing "
     "'guidance_hint', hint+guidance in one language only); distinct by canonical hash of form+arguments; "
     "non-trivial = accepted by the converter and at least one jr:itext reference or itextId in the output"
 )
@@ -36,6 +38,7 @@ MODELLED_ERRORS = {
     "bigImage": re.compile(r"To use big-image"),
     "mediaType": re.compile(r"Media type: .* not supported"),
     "searchFromFile": re.compile(r"is a select from file type, using 'search\(\)'"),
+    "searchNoChoices": re.compile(r"uses 'search\(\)' but has no choices of its own"),
     "searchConflict": re.compile(r"uses 'search\(\)', and its select type references"),
 }
 
@@ -76,7 +79,8 @@ def match_f6(f: Failure) -> bool:
     return bool(bad) and bad <= unlabeled_itext_choices(f.case["form"])
 
 
-MATCHERS = {"F6-unlabeled-choice-itext": match_f6}
+# F6 (unlabeled choice in an itext-requiring list) is repaired: no matcher, a recurrence is a VIOLATION.
+MATCHERS = {}
 
 
 # ------------------------------------------------------------------------------ one case
@@ -155,7 +159,7 @@ def one_case(ctx, case, tag="gen"):
                 ctx.mismatch("guard wf (no empty dict in a translatable slot, unique bind-message keys) is false "
                              "on a builder output", case, "built survey", g)
             ctx.count("guard:choicesLabeled-" + str(g["choicesLabeled"]).lower())
-            if g["wf"] and g["choicesLabeled"] and not model["holds"]["ok"]:
+            if g["wf"] and not model["holds"]["ok"]:
                 raise vcore.Infra("theorem holds_out contradicted by the driver: " + str(model["holds"]))
             if g["choicesLabeled"] != (not (unlabeled_itext_choices(form))):
                 ctx.mismatch("F6 shape on the sheet vs guard choicesLabeled on the built survey", case,
@@ -186,7 +190,7 @@ def one_case(ctx, case, tag="gen"):
 
 
 def directed_cases(rng):
-    """Witness families of DESIGN §7 for C07 (F6 open; F24, F9 repaired — must stay repaired)."""
+    """Witness families of DESIGN §7 for C07 (F6, F24, F9 repaired — must stay repaired)."""
     out = []
     # F6: unlabeled choice in a translated list / in a list with media / with a dynamic label; itemset and search()
     for labelcols in (["label::en", "label::fr"], ["label::en"], ["label", "image"], ["label"]):
@@ -222,6 +226,30 @@ def directed_cases(rng):
         {"type": "select_multiple c", "name": "s2", "label": "S"}],
         "choices": [{"list_name": "c", "name": "x", "label": "X"}, {"list_name": "c", "name": "y", "label::fr": "Y"}]},
         "kw": {"default_language": "fr"}})
+    # bind messages of every kind given directly as bind:: columns: plain / with a ${ref} / per language
+    for key in ("jr:constraintMsg", "jr:requiredMsg", "jr:noAppErrorString"):
+        for txt in ("msg", "msg ${q0}"):
+            for cols in ([f"bind::{key}"], [f"bind::{key}::en"], [f"bind::{key}::en", f"bind::{key}::fr"],
+                         [f"bind::{key}", f"bind::{key}::fr"]):
+                row = {"type": "integer", "name": "n", "label": "N", "constraint": ". > 0", "required": "yes"}
+                grp = {"type": "begin group", "name": "g", "label": "G", "relevant": "${q0} != ''"}
+                for c in cols:
+                    row[c] = txt
+                    grp[c] = txt
+                out.append({"form": {"survey": [{"type": "text", "name": "q0", "label": "Q0"}, grp, row, {"type": "end group"}]}, "kw": {}})
+    # language names that differ only by letter case are different translations; exactly the one equal
+    # to default_language is marked
+    for a, b in (("English", "english"), ("fr", "FR"), ("Sw", "sW")):
+        for dl in (a, b, a.upper(), "default"):
+            for how in ("settings", "kw"):
+                form = {"survey": [{"type": "select_one c", "name": "q", f"label::{a}": "Q", f"hint::{b}": "h"}],
+                        "choices": [{"list_name": "c", "name": "x", f"label::{b}": "X"}, {"list_name": "c", "name": "y", f"label::{a}": "Y"}]}
+                kw = {}
+                if how == "settings":
+                    form["settings"] = [{"default_language": dl}]
+                else:
+                    kw["default_language"] = dl
+                out.append({"form": form, "kw": kw})
     rng.shuffle(out)
     return out
 
@@ -271,7 +299,7 @@ def explore(ctx, factor, bs):
     ctx.notes["fragment_share"] = round(inside / max(1, inside + outside), 4)
     ctx.notes["theorem_guards"] = {
         "wf_false_inputs": ctx.dist.get("guard:wf-false", 0),
-        "choicesLabeled_false_inputs (F6 shape, open finding)": ctx.dist.get("guard:choicesLabeled-false", 0),
+        "choicesLabeled_false_inputs (F6 shape, repaired: padded)": ctx.dist.get("guard:choicesLabeled-false", 0),
         "choicesLabeled_true_inputs": ctx.dist.get("guard:choicesLabeled-true", 0),
     }
 
